@@ -145,6 +145,8 @@ fn expr(e: &Expr) -> Value {
         Expr::Binary(b) => json!({"k":"binary","line":line(b),"op":toks(&b.op),"l":expr(&b.left),"r":expr(&b.right)}),
         Expr::Reference(r) => json!({"k":"ref","mutable":r.mutability.is_some(),"expr":expr(&r.expr)}),
         Expr::Paren(p) => expr(&p.expr),
+        // `.await`: the encoder executes async bodies as straight-line code (no interleaving is modelled)
+        Expr::Await(a) => expr(&a.base),
         Expr::Group(p) => expr(&p.expr),
         Expr::Field(f) => json!({"k":"field","base":expr(&f.base),"member":toks(&f.member)}),
         Expr::Index(i) => json!({"k":"index","line":line(i),"base":expr(&i.expr),"index":expr(&i.index)}),
